@@ -315,7 +315,7 @@ def prethread_loops(src: str, rng: random.Random, nloops=2):
     return "\n".join(lines)
 
 
-def passthrough_program(rng: random.Random):
+def passthrough_program(rng: random.Random, full=None):
     """A loop that ALREADY carries the state of accelerator X (left over from an earlier trace + dedup run) but no longer sets X up
     in its body: it passes the state through, while the body sets up the other accelerator and (mostly) reaches an unannotated
     call; X is set up again (a few fields) and launched behind the loop."""
@@ -325,7 +325,7 @@ def passthrough_program(rng: random.Random):
     ind = "  "
     out = []
     g.scope_accs = [[x]]
-    g.full = rng.random() < 0.6
+    g.full = rng.random() < 0.6 if full is None else full
     pre = g.setup_launch(list(vals), ind, {})
     sx = next(m.group(2) for l in pre if (m := ac._SETUP_RE.match(l)))
     out += pre
@@ -339,7 +339,7 @@ def passthrough_program(rng: random.Random):
     out.append(f"{ind}  {ii} = arith.index_cast {i} : index to i32")
     body = []
     g.scope_accs = [[y]]
-    g.full = rng.random() < 0.5
+    g.full = rng.random() < 0.5 if full is None else full
     for _ in range(rng.randint(1, 3)):
         k = rng.random()
         if k < 0.45:
@@ -354,7 +354,7 @@ def passthrough_program(rng: random.Random):
     out.append(f"{ind}  scf.yield {arg} : {ty}")
     out.append(f"{ind}}}")
     g.scope_accs = [[x]]
-    g.full = False
+    g.full = False if full is None else full
     post = g.setup_launch(list(vals), ind, {})
     if rng.random() < 0.5:
         post = [re.sub(r'accfg\.setup "(\w+)" to', lambda m: f'accfg.setup "{m.group(1)}" from {res} to', l, count=1) if ac._SETUP_RE.match(l) else l
